@@ -5,7 +5,7 @@ import Tickit.Driver.Common
   Engine `bindings` (C16).  Operations and observations: see `harness/bindings.c`.
 
   Model side: `Tickit.Bindings.execOp` with the configuration the extractor read from the working
-  tree (`Gen.Bindings.skipTomb/wfOneshot/guardedUnbind`); the observation is the observable part of
+  tree (`Gen.Bindings.skipTomb/wfOneshot/notifyLast`); the observation is the observable part of
   the trace the operation appended.
 
   Specification side (`Spec`): an *abstract* machine — the list of live bindings in binding order,
@@ -17,7 +17,7 @@ import Tickit.Driver.Common
 namespace Tickit.Driver.BindingsEngine
 open Tickit Tickit.Driver Tickit.Bindings
 
-def genCfg : Cfg := ⟨Gen.Bindings.skipTomb, Gen.Bindings.wfOneshot, Gen.Bindings.guardedUnbind⟩
+def genCfg : Cfg := ⟨Gen.Bindings.skipTomb, Gen.Bindings.wfOneshot, Gen.Bindings.notifyLast⟩
 
 def flagsOf (n : Nat) : Bool × BFlags :=
   (n % 2 = 1, ⟨n / 2 % 2 = 1, n / 4 % 2 = 1, n / 8 % 2 = 1⟩)
@@ -209,7 +209,7 @@ def stepTok (own : Owner) (beh : Behaviour) (s : S) (t : Tok) : Except String S 
           else if notified then .error s!"unbind_notify_once: slot {slot} notified twice"
           else if fl ≠ 2 then .error s!"unbind notification of slot {slot} has flags {fl}"
           else .ok { s with stack := frame :: .unb (some k) expect true :: rest }
-        | .unb none _ _ :: _ => .error s!"unbind of an identifier no live binding has called the handler of slot {slot}"
+        | .unb none _ _ :: _ => .error s!"unbind_notify_once: an unbind request that matched no live binding notified slot {slot} (already unbound: notified again)"
         | .des (k :: owed) :: rest =>
           if k ≠ slot then .error s!"destroy_notifies: slot {slot} notified where slot {k} was due"
           else if fl ≠ 6 then .error s!"destroy notification of slot {slot} has flags {fl}"
